@@ -235,7 +235,13 @@ def main():
             n = 50 if tier == "quick" else 2000
             h = run_harness(pid, "crosscheck", n, repo, seed)
             cross = _parse_json_tail(h)
-            if h and h["rc"] == 3:
+            if h and h["rc"] == 1:
+                # the run-time evaluation of the contracts on the real code found a failing input (bounded, native)
+                rp = os.path.join(HERE, "replay", pid, "runtime_contract_check.json")
+                json.dump({"property": pid, "obligation": "run-time contract evaluation on the real code", "harness": h, "result": cross}, open(rp, "w"), indent=1)
+                violations += 1
+                lines.append(f"VIOLATION property={pid} replay={rp}")
+            elif h and h["rc"] == 3:
                 checker_errors.append(f"cross-check: trusted axiom or encoder summary disagrees with CPython: {h['out'][-500:]}")
             elif h and h["rc"] not in (0,):
                 checker_errors.append(f"cross-check crashed rc={h['rc']}: {h['err'][-300:]}")
